@@ -413,8 +413,10 @@ def verify_function(world, contract, report=None, only_cfg=None, scope=None):
                         acc = contract.accepts(a, cfg)
                         if acc is None:
                             acc = Not(contract.rejects(a, cfg))
-                        ctx.oblige('p%s/accepts:no-raise-on-accepted-domain(%s@%s)' % (pid, outcome[1], outcome[2]),
-                                   Not(acc), 'accepts')
+                        if outcome[2] not in getattr(contract, 'environment_failures', ()):
+                            # (a raise injected by an assumed callable is not a rejection by the function)
+                            ctx.oblige('p%s/accepts:no-raise-on-accepted-domain(%s@%s)' % (pid, outcome[1], outcome[2]),
+                                       Not(acc), 'accepts')
                         for label, f in contract.exc_post(a, cfg, ctx):
                             ctx.oblige('p%s/signals:%s' % (pid, label), f, 'exc-post')
                 except Unsupported as e:
